@@ -32,7 +32,7 @@ def strip_comments(src):
 # ------------------------------------------------------------------------------------------------
 # tiny expression language: integers a b c, boolean atoms p q r, + - unary-, comparisons, ! && ||
 # ------------------------------------------------------------------------------------------------
-TOK = re.compile(r"\s*(?:(\d+)|([A-Za-z_]\w*)|(==|!=|<=|>=|&&|\|\||[-+<>!()]))")
+TOK = re.compile(r"\s*(?:(\d+)|([A-Za-z_]\w*)|(==|!=|<=|>=|&&|\|\||[-+<>!()~*]))")
 
 
 def tokenize(s):
@@ -101,10 +101,17 @@ class P:
         return e
 
     def add(self):
-        e = self.unary()
-        while self.peek() in (("op", "+"), ("op", "-")):
+        e = self.mul()
+        while self.peek() in (("op", "+"), ("op", "-"), ("op", "~")):
             op = self.eat()
-            e = ("add" if op == "+" else "sub", e, self.unary())
+            e = ({"+": "add", "-": "sub", "~": "wsub"}[op], e, self.mul())
+        return e
+
+    def mul(self):
+        e = self.unary()
+        while self.peek() == ("op", "*"):
+            self.eat()
+            e = ("mul", e, self.unary())
         return e
 
     def unary(self):
@@ -139,6 +146,11 @@ class P:
                 return ("tt",)
             if v == "false":
                 return ("ff",)
+            if v == "wrap" and self.peek() == ("op", "("):   # a value cast to difference_type
+                self.eat()
+                e = self.lor()
+                self.eat("op", ")")
+                return ("wsub", e, ("lit", 0))
             raise TranslateError("unknown identifier %r in %r" % (v, self.text))
         raise TranslateError("unexpected token %r in %r" % (v, self.text))
 
@@ -151,7 +163,7 @@ def check_types(e):
     k = e[0]
     if k in ("var", "lit", "atom", "tt", "ff"):
         return
-    if k in ("add", "sub"):
+    if k in ("add", "sub", "wsub", "mul"):
         if is_bool(e[1]) or is_bool(e[2]):
             raise TranslateError("arithmetic on a boolean")
         check_types(e[1]); check_types(e[2])
@@ -189,6 +201,14 @@ def ev(e, env):
         return ev(e[1], env) - ev(e[2], env)
     if k == "neg":
         return -ev(e[1], env)
+    if k == "mul":
+        return ev(e[1], env) * ev(e[2], env)
+    if k == "wsub":   # machine difference: modulo 2^bits, read as signed (bits = 0: exact)
+        d, bits = ev(e[1], env) - ev(e[2], env), env.get("bits", 0)
+        if not bits:
+            return d
+        d %= 1 << bits
+        return d - (1 << bits) if d >= 1 << (bits - 1) else d
     if k == "not":
         return not ev(e[1], env)
     if k == "and":
@@ -204,12 +224,26 @@ def ev(e, env):
 GRID_I = (-3, -2, -1, 0, 1, 2, 4)
 
 
+GRID_W = (-128, -100, -2, -1, 0, 1, 3, 100, 127, 200, 255)   # values of 8 bit types, far apart and close
+
+
+def has_wsub(e):
+    return e[0] == "wsub" or any(isinstance(x, tuple) and has_wsub(x) for x in e[1:])
+
+
 def equivalent(e1, e2):
     for a, b, c in itertools.product(GRID_I, repeat=3):
         for p, q, r in itertools.product((False, True), repeat=3):
             env = dict(a=a, b=b, c=c, p=p, q=q, r=r)
             if ev(e1, env) != ev(e2, env):
                 return False
+    if has_wsub(e1) or has_wsub(e2):
+        # a machine difference is involved: compare as an 8 bit type computes, operands up to the whole type apart
+        for a, b, c in itertools.product(GRID_W, repeat=3):
+            for p in (False, True):
+                env = dict(a=a, b=b, c=c, p=p, q=not p, r=p, bits=8)
+                if ev(e1, env) != ev(e2, env):
+                    return False
     return True
 
 
@@ -228,7 +262,7 @@ def lean(e):
         return ".tt"
     if k == "ff":
         return ".ff"
-    if k in ("add", "sub", "and", "or"):
+    if k in ("add", "sub", "wsub", "mul", "and", "or"):
         return "(.%s %s %s)" % (k, lean(e[1]), lean(e[2]))
     if k in ("neg", "not"):
         return "(.%s %s)" % (k, lean(e[1]))
@@ -561,7 +595,14 @@ def translate(repo):
     ir_cls = irc[0] if isinstance(irc[0], str) else ""
     ir_subst = [(r"other\s*\.\s*value_", "b"), (r"\ba\s*\.\s*value_", "a"), (r"\bvalue_", "a"), (r"\bn\b", "b")]
 
-    def ir_ret(rx, sub=ir_subst):
+    # inside the comparison operators a difference of two iterators (`*this - other`, `operator-(other)`) and a cast
+    # to difference_type are MACHINE operations of the width of T: they wrap (E.wsub)
+    ir_machine = [(r"\(\s*\*\s*this\s*\)", "*this"),
+                  (r"\*\s*this\s*-\s*other\b(?!\s*\.)", "(a ~ b)"), (r"\bother\s*-\s*\*\s*this\b", "(b ~ a)"),
+                  (r"(?:this\s*->\s*)?operator\s*-\s*\(\s*other\s*\)", "(a ~ b)"), (r"other\s*\.\s*operator\s*-\s*\(\s*\*\s*this\s*\)", "(b ~ a)"),
+                  (r"static_cast\s*<\s*difference_type\s*>\s*\(", "wrap("), (r"\bdifference_type\s*\(", "wrap(")]
+
+    def ir_ret(rx, sub=ir_subst, machine=False):
         def f():
             res = []
             for m in re.finditer(rx, ir_cls):
@@ -569,13 +610,14 @@ def translate(repo):
                 if len(r) != 1:
                     res.append(TranslateError("body not understood: %s" % rx))
                 else:
-                    e = re.sub(r"^\s*IntegralRangeIterator\s*\((.*)\)\s*$", r"\1", drop_casts(r[0]))
+                    t = subst(r[0], ir_machine) if machine else r[0]
+                    e = re.sub(r"^\s*IntegralRangeIterator\s*\((.*)\)\s*$", r"\1", drop_casts(t))
                     res.append(subst(e, sub))
             return res
         return safe(f)
     for op, sym in (("eq", "=="), ("ne", "!="), ("lt", "<"), ("le", "<="), ("gt", ">"), ("ge", ">=")):
         G.piece("ir_" + op, "IntegralRangeIterator operator%s; a = value_, b = other.value_" % sym, "a %s b" % sym,
-                ir_ret(r"operator\s*%s\s*\(\s*const\s+IntegralRangeIterator\s*&\s*other\s*\)\s*const\s*(?:noexcept)?\s*\{" % re.escape(sym)), 1)
+                ir_ret(r"operator\s*%s\s*\(\s*const\s+IntegralRangeIterator\s*&\s*other\s*\)\s*const\s*(?:noexcept)?\s*\{" % re.escape(sym), machine=True), 1)
     G.piece("ir_deref", "IntegralRangeIterator operator*; a = value_", "a", ir_ret(r"operator\s*\*\s*\(\s*\)\s*const\s*(?:noexcept)?\s*\{"), 1)
     G.piece("ir_index", "IntegralRangeIterator operator[](n); a = value_, b = n", "a + b",
             ir_ret(r"operator\s*\[\s*\]\s*\(\s*difference_type\s+n\s*\)\s*const\s*(?:noexcept)?\s*\{"), 1)
